@@ -35,6 +35,16 @@ def merge(pid, entry, tier, seed, partials, wall, nviol, nreplayed, inconclusive
     for name, s in sorted(subs.items()):
         for c in s["samples"][:2]:
             samples.append({"subcheck": name, "case": c})
+    if not samples:
+        # every unit stopped at its first failure before a non-trivial case was
+        # sampled: show the failing cases instead
+        for part in partials:
+            for name, pr in part["props"].items():
+                if pr.get("failed"):
+                    samples.append({"subcheck": name, "failing_case_file": pr.get("fail_file", ""),
+                                    "message": pr.get("fail_msg", "")[:500]})
+    if not samples:
+        samples.append({"note": "no non-trivial case was generated in this run"})
     rules = "; ".join("%s: %s" % (n, s["rule"]) for n, s in sorted(subs.items()) if s["rule"])
     ev = {
         "property_id": pid,
